@@ -71,8 +71,9 @@ def evaluate(alg, polys, x, style=0):
     N = polys[0].N
     xs = [x[i] for i in range(N)]
     vals = []
+    inplace = (abs(style) // 6) % 2 == 1         # accumulate like the builtin sum(): start from the integer 0, then update in place
     for p in polys:
-        acc = None
+        acc = 0 if inplace else None
         for e, c in sorted(p.t.items()):
             term = None
             for i, ei in enumerate(e):
@@ -92,7 +93,13 @@ def evaluate(alg, polys, x, style=0):
                 term = cf + 0 * xs[0]
             elif cf != 1.0:
                 term = cf * term if style % 2 == 0 else term * cf
-            acc = term if acc is None else acc + term
+            if inplace:
+                if isinstance(acc, int):
+                    acc = acc + term
+                else:
+                    acc += term
+            else:
+                acc = term if acc is None else acc + term
         vals.append(acc)
     if len(polys) == 1 and style >= 0:
         return vals[0]
